@@ -70,6 +70,26 @@ def index_family():
     return out
 
 
+def meta_indexes_family():
+    """deterministic family: Meta.indexes (and Meta.constraints) of one model go from one list of 2-5 named entries to
+    another in one ChangeMeta - several entries dropped, several created: the statements come in the declared order in
+    every process"""
+    out = []
+    names = ['alpha', 'beta', 'gamma', 'delta', 'epsilon']
+    cols = list('abcde')
+    base_fields = [fld('id', 'AutoField', primary_key=True)] + [fld(c, 'IntegerField', null=True) for c in cols]
+    ix = lambda k: {'name': 'vapp_alpha_%s_idx' % names[k], 'fields': [cols[k]]}
+    for old, new in (([0, 1, 2, 3], []), ([0, 1, 2, 3, 4], [2]), ([3, 1, 0], [4, 2]), ([], [0, 1, 2, 3]), ([4, 3, 2, 1, 0], [])):
+        m0 = {'name': 'Alpha', 'table': 'vapp_alpha', 'unique_together': [], 'index_together': [],
+              'indexes': [ix(k) for k in old], 'constraints': [], 'fields': base_fields}
+        m1 = dict(m0, indexes=[ix(k) for k in new])
+        out.append({'spec0': {'apps': [{'id': 'vapp', 'models': [m0]}]},
+                    'spec1': {'apps': [{'id': 'vapp', 'models': [m1]}]},
+                    'muts': [{'t': 'ChangeMeta', 'model': 'Alpha', 'prop': 'indexes', 'py_value': [ix(k) for k in new]}],
+                    'rows': False, 'family': 'meta-indexes'})
+    return out
+
+
 def delete_m2m_family():
     """deterministic family: a model with several many-to-many fields is deleted (one DROP TABLE per join table)"""
     out = []
@@ -347,7 +367,7 @@ def run(ctx):
                 '`evolve --execute`; non-trivial = the preview has at least one statement' % len(seeds))
     flag = ctx.variant.get('together_iteration')
     n = 82 if quick else 600
-    cases = [{'case': c, 'seed': i} for i, c in enumerate(together_family() + index_family() + delete_m2m_family() + custom_field_family() + sql_file_family() + bound_value_family() + delete_model_family() + two_app_family() + adjacent_sql_family())]
+    cases = [{'case': c, 'seed': i} for i, c in enumerate(together_family() + index_family() + meta_indexes_family() + delete_m2m_family() + custom_field_family() + sql_file_family() + bound_value_family() + delete_model_family() + two_app_family() + adjacent_sql_family())]
     tries = 0
     while len(cases) < n + 10 and tries < n * 6:
         tries += 1
